@@ -47,7 +47,7 @@ PARTIAL = ('Proved in Lean: handler resolution (nearest class in the MRO, latest
            'rendered in turn, escape iff unhandled or the handler raises something else, defaults => 500 / own status). NOT proved: that every raise window of App.__call__ is wrapped '
            '(checked by the raise-site generator + oracle, and by C03\'s pipeline correspondence), content negotiation of default_serialize_error and the faithfulness of the JSON/XML '
            'encoders (checked by parsing the emitted body with the standard library and comparing every field).')
-JOBS = {'quick': 8, 'thorough': 16}
+JOBS = {'quick': 12, 'thorough': 16}
 
 D_EXC, D_HTTP, D_STATUS = 9001, 9002, 9003
 
@@ -174,7 +174,7 @@ def _resolution(ctx):
     rnd = ctx.rng
     sess = ctx.session('handler chosen by the app (WSGI+ASGI, every raise site) = Eh.find over type(ex).__mro__[:-1] and the registration history', 'ehdriver')
     name = 'the handler of the nearest registered class in the MRO runs (latest registration per class), exactly once, and the body is what it set'
-    for ci in range(ctx.n(12000, 250000)):
+    for ci in range(ctx.n(12000, 150000)):
         stack = rnd.choice(['wsgi', 'asgi'])
         asgi = stack == 'asgi'
         called = []
@@ -345,7 +345,7 @@ def _sites(ctx):
     i, k = ctx.shard
     todo = [c for j, c in enumerate(combos) if j % k == i] if not ctx.searching else []
     todo = todo * (1 if ctx.quick else 4)
-    for _ in range(ctx.n(4000, 80000)):
+    for _ in range(ctx.n(4000, 50000)):
         todo.append(rnd.choice(combos))
     for ci, (stack, site, exc, out) in enumerate(todo):
         asgi = stack == 'asgi'
@@ -546,7 +546,7 @@ def _serialization(ctx):
             return json.loads(stream.read()[8:])
 
     ranges_pool = [JSON, XML_A, XML_T, 'text/html', '*/*', 'application/*', 'text/*', 'application/vnd.acme+json', 'application/vnd.acme+xml', YAML, 'image/png']
-    for ci in range(ctx.n(12000, 250000)):
+    for ci in range(ctx.n(12000, 150000)):
         stack = rnd.choice(['wsgi', 'asgi'])
         asgi = stack == 'asgi'
         kind = rnd.choice(['http'] * 6 + ['status', 'status', 'plain'])
